@@ -54,6 +54,10 @@ func (Area) Gen(r *rand.Rand, tier string, emit func(string)) {
 			emit(fmt.Sprintf("dl %s %s %d", e, s, timeouts[r.Intn(len(timeouts))]))
 		}
 	}
+	// a well-formed ZERO timeout is a deadline that has already passed, not "no timeout"
+	for _, e := range entries {
+		emit(fmt.Sprintf("dl %s %s 0", e, shapes[r.Intn(len(shapes))]))
+	}
 	if tier == "thorough" {
 		for i := 0; i < 60; i++ {
 			emit(fmt.Sprintf("dl %s %s %d", entries[r.Intn(len(entries))], shapes[r.Intn(len(shapes))], 100+r.Intn(500)))
@@ -399,6 +403,9 @@ func runProxy(rt router, t *target, toMs int, limit time.Duration) obs {
 	t.start = time.Now()
 	s, err := cc.NewStream(ctx, &grpc.StreamDesc{ClientStreams: true, ServerStreams: true}, "/t.S/Bidi")
 	if err != nil {
+		if status.Code(err) == codes.DeadlineExceeded {
+			return obs{time.Since(t.start).Milliseconds(), "deadline"} // grpc-go's client refuses an expired deadline itself
+		}
 		return obs{time.Since(t.start).Milliseconds(), "streamerr"}
 	}
 	_ = s.SendMsg(&emptypb.Empty{})
